@@ -581,6 +581,11 @@ func (u *Unit) builtin(fr *Frame, st *State, name string, args []Val, cc *ssa.Ca
 			u.event(fr, st, "close", map[string]Val{"ch": s}, where)
 		}
 		return nil
+	case "delete":
+		if mv, ok := args[0].(*MapV); ok {
+			u.mapStore(st, mv, u.termOf(args[1]), TZero, TFalse)
+		}
+		return nil
 	case "recover":
 		return u.freshVal(types.NewInterfaceType(nil, nil), "recovered", st.pc)
 	}
